@@ -290,7 +290,17 @@ impl Write for FaultyWriter {
       self.written.push(buf[0]);
       return Ok(1);
     }
-    if self.kind == "ok" || (self.kind == "intr" && self.fired) {
+    if self.kind == "chunk7" {
+      // a writer that takes at most 7 bytes per call (pipe, compressor)
+      let n = buf.len().min(7);
+      self.written.extend_from_slice(&buf[..n]);
+      return Ok(n);
+    }
+    // "flaky": refuses exactly one call (a real error, not Interrupted) once
+    // its budget is used up, and accepts everything offered afterwards
+    if self.kind == "ok"
+      || ((self.kind == "intr" || self.kind == "flaky") && self.fired)
+    {
       self.written.extend_from_slice(buf);
       return Ok(buf.len());
     }
@@ -490,6 +500,18 @@ impl Machine {
         let text = m.clone().to_json();
         let mut w: Vec<u8> = vec![];
         let wres = m.clone().to_writer(&mut w);
+        // the same value through writers that take less than they are offered
+        let faulty = |kind: &str, budget: usize| {
+          let mut fw = FaultyWriter {
+            kind: kind.to_string(),
+            budget,
+            written: Vec::new(),
+            fired: false,
+          };
+          let r = m.clone().to_writer(&mut fw);
+          json!({"ok": r.is_ok(), "w": bytes_json(&fw.written)})
+        };
+        let half = text.as_ref().map(|t| t.len() / 2).unwrap_or(0);
         match text {
           Ok(text) => {
             let doc: Result<Value, _> = serde_json::from_str(&text);
@@ -502,6 +524,11 @@ impl Machine {
               "json": bytes_json(text.as_bytes()),
               "writer_ok": wres.is_ok(),
               "writer": bytes_json(&w),
+              "w_chunky": faulty("chunky", 0),
+              "w_chunk7": faulty("chunk7", 0),
+              "w_intr": faulty("intr", half),
+              "w_zero": faulty("zero", half),
+              "w_err": faulty("err", half),
               "doc": doc.map(|d| vec![doc_json(&d)]).unwrap_or_default(),
               "back_json": back(SourceMap::from_json(&text)),
               "back_slice": back(SourceMap::from_slice(text.as_bytes())),
@@ -537,6 +564,66 @@ impl Machine {
         let mut big = false;
         json!({"m": bytes_json(enc.as_bytes()), "dec": segs_json(&dec, &mut big),
                "re": bytes_json(re.as_bytes()), "big": big})
+      }
+      "codec_wide" => {
+        // the codec over the whole u32 range: every field travels as a pair
+        // [hi, lo] of 16-bit halves (TLC integers stop below 2^31)
+        let w = |v: &Value| -> u32 {
+          ((v[0].as_u64().unwrap_or(0) << 16) | v[1].as_u64().unwrap_or(0)) as u32
+        };
+        let pair = |x: u32| json!([x >> 16, x & 0xffff]);
+        let ms: Vec<Mapping> = step["segs"]
+          .as_array()
+          .map(|a| {
+            a.iter()
+              .map(|s| Mapping {
+                generated_line: s["gl"].as_u64().unwrap_or(1) as u32,
+                generated_column: w(&s["gc"]),
+                original: Some(OriginalLocation {
+                  source_index: w(&s["si"]),
+                  original_line: w(&s["ol"]),
+                  original_column: w(&s["oc"]),
+                  name_index: s["ni"].as_array().and_then(|a| a.first()).map(w),
+                }),
+              })
+              .collect()
+          })
+          .unwrap_or_default();
+        let wide_json = |ms: &[Mapping]| -> Value {
+          Value::Array(
+            ms.iter()
+              .map(|m| match &m.original {
+                Some(o) => json!({
+                  "gl": m.generated_line, "gc": pair(m.generated_column),
+                  "si": pair(o.source_index), "ol": pair(o.original_line),
+                  "oc": pair(o.original_column),
+                  "ni": o.name_index.map(|n| vec![pair(n)]).unwrap_or_default(),
+                }),
+                None => json!({"gl": m.generated_line, "gc": pair(m.generated_column), "unmapped": true}),
+              })
+              .collect(),
+          )
+        };
+        let enc = rspack_sources::encode_mappings(ms.clone().into_iter());
+        let map = SourceMap::new(enc.clone(), Vec::<String>::new(), Vec::<String>::new(), Vec::<String>::new());
+        let dec: Vec<Mapping> = rspack_sources::decode_mappings(&map).collect();
+        let re = rspack_sources::encode_mappings(dec.clone().into_iter());
+        // the line-only encoder, as in lines_encode
+        let mut events = vec![];
+        for m in &ms {
+          events.push(crate::custom::ScriptEv::Chunk(
+            String::new(),
+            m.generated_line,
+            m.generated_column,
+            m.original.as_ref().map(|o| (o.source_index, o.original_line, o.original_column, o.name_index)),
+          ));
+        }
+        let last = ms.last().map(|m| m.generated_line).unwrap_or(1);
+        let child = crate::custom::ScriptSource { text: String::new(), events, end: (last, 1) };
+        let concat = rspack_sources::ConcatSource::new([child]);
+        let lm = concat.map(&MapOptions::new(false));
+        json!({"m": bytes_json(enc.as_bytes()), "dec": wide_json(&dec), "re": bytes_json(re.as_bytes()),
+               "lm": lm.as_ref().map(|m| vec![bytes_json(m.mappings().as_bytes())]).unwrap_or_default()})
       }
       "decode" => {
         let text = crate::build::string_of(&step["m"]);
